@@ -60,6 +60,40 @@ type runner struct {
 	env     []string
 	mu      sync.Mutex
 	failed  map[string]bool // report files already turned into findings
+	known   map[string]bool // finding keys listed as known for C53
+	unknown map[string]bool // targets (key prefix up to ':') with a finding that is not listed
+}
+
+// fail reports a finding and remembers whether its key is a listed one: the
+// fuzz loop resumes a target after a worker death only for listed findings
+// (to finish the budget on the unchanged tree); an unlisted one already fails
+// the run, and replaying heavy crashers again and again would only cost time.
+func (r *runner) fail(key, what string, replay any) {
+	if !r.known[key] {
+		r.mu.Lock()
+		r.unknown[strings.SplitN(key, ":", 2)[0]] = true
+		r.mu.Unlock()
+	}
+	r.c.Fail(key, what, replay)
+}
+
+func loadKnownKeys() map[string]bool {
+	m := map[string]bool{}
+	files, _ := filepath.Glob(filepath.Join(vf.VerifRoot, "known-findings.d", "*.jsonl"))
+	files = append(files, filepath.Join(vf.VerifRoot, "known-findings.jsonl"))
+	for _, f := range files {
+		b, err := os.ReadFile(f)
+		if err != nil {
+			continue
+		}
+		for _, ln := range strings.Split(string(b), "\n") {
+			var e struct{ Property, Key, Status string }
+			if json.Unmarshal([]byte(strings.TrimSpace(ln)), &e) == nil && e.Property == "C53" && e.Status == "known" {
+				m[e.Key] = true
+			}
+		}
+	}
+	return m
 }
 
 func main() {
@@ -274,7 +308,7 @@ func (r *runner) failReports(dir, origin string) (hangs []report) {
 			continue
 		}
 		what := fmt.Sprintf("%s mode=%s input_len=%d: %s: %s | top of stack: %s", rp.Target, rp.Mode, rp.InputLen, rp.Kind, rp.Msg, firstLines(stackAfterPanic(rp.Stack), 6))
-		r.c.Fail(rp.Key, what, replayCase(rp.Target, rp.Corpus, origin))
+		r.fail(rp.Key, what, replayCase(rp.Target, rp.Corpus, origin))
 		r.c.Count("oracle_reports_"+rp.Kind, 1)
 	}
 	return hangs
@@ -312,26 +346,34 @@ func (r *runner) runSingle(target, corpus, tag string, timeout time.Duration, ex
 }
 
 // confirmHang re-runs a watchdog suspect alone with a 10x budget.
-func (r *runner) confirmHang(rp report, origin string) {
+// It returns the key of the finding it reported ("" when the suspect was not confirmed).
+func (r *runner) confirmHang(rp report, origin string) string {
 	c := r.c
 	c.Count("hang_suspects", 1)
 	res, reps := r.runSingle(rp.Target, rp.Corpus, "hang", 45*time.Minute, "VERIF_FUZZ_HANG_S=200")
 	for _, x := range reps {
 		if x.Kind == "hang" {
-			c.Fail(x.Key, fmt.Sprintf("%s mode=%s input_len=%d: decode does not return: %s (first fired at the 20 s CPU budget while fuzzing, confirmed alone in a fresh process with the 10x budget) | loop site samples: %s",
+			r.fail(x.Key, fmt.Sprintf("%s mode=%s input_len=%d: decode does not return: %s (first fired at the 20 s CPU budget while fuzzing, confirmed alone in a fresh process with the 10x budget) | loop site samples: %s",
 				x.Target, x.Mode, x.InputLen, x.Msg, firstLines(x.Stack, 8)), replayCase(x.Target, x.Corpus, origin))
 			c.Count("hangs_confirmed", 1)
-			return
+			return x.Key
 		}
 	}
+	if key, msg, stack := classifyCrash(rp.Target, res.out); key != "" {
+		// e.g. unbounded recursion: a hang at the 20 s budget, a stack overflow within the 10x budget
+		r.fail(key, fmt.Sprintf("%s mode=%s input_len=%d: watchdog suspect (%s) died when re-run alone with the 10x budget: %s | %s", rp.Target, rp.Mode, rp.InputLen, rp.Key, msg, firstLines(stackAfterPanic(stack), 10)), replayCase(rp.Target, rp.Corpus, origin))
+		c.Count("hangs_confirmed", 1)
+		return key
+	}
 	for _, x := range reps { // the re-run may instead surface a panic / alloc report
-		c.Fail(x.Key, fmt.Sprintf("%s mode=%s: %s: %s", x.Target, x.Mode, x.Kind, x.Msg), replayCase(x.Target, x.Corpus, origin))
+		r.fail(x.Key, fmt.Sprintf("%s mode=%s: %s: %s", x.Target, x.Mode, x.Kind, x.Msg), replayCase(x.Target, x.Corpus, origin))
 	}
 	if res.timeout {
 		c.Inconclusive("hang suspect %s: the 10x re-run itself timed out after %v", rp.Key, res.wall)
-		return
+		return ""
 	}
 	c.Inconclusive("watchdog suspect %s (20 s CPU budget) returned within the 10x budget when re-run alone (%.1fs): slow input, not a hang; the target did not finish its execution budget", rp.Key, res.wall.Seconds())
+	return ""
 }
 
 var (
@@ -420,42 +462,47 @@ func (r *runner) handleCrasher(target, crasherRel string, fo fuzzOutcome, worker
 	} else if key != "" {
 		note = "NOT reproduced when the saved input is replayed alone in a fresh process (state accumulated in the worker, or the engine attributed the death to the wrong input)"
 	}
+	// what this check's own oracles say about the input when it runs alone comes first
+	hung := false
+	for _, x := range reps {
+		if x.Kind == "hang" {
+			hung = true
+			r.confirmHang(x, origin)
+			continue
+		}
+		r.fail(x.Key, fmt.Sprintf("%s mode=%s input_len=%d: %s: %s", x.Target, x.Mode, x.InputLen, x.Kind, x.Msg), replayCase(x.Target, x.Corpus, origin))
+	}
+	if hung {
+		return false
+	}
 	if strings.Contains(msg, "deadlocked!") && res.code == 0 {
 		// Go's fuzz engine kills a worker whose single execution takes more than
 		// 10 s of WALL clock (internal/fuzz.RunFuzzWorker: panic("deadlocked!")).
 		// On a loaded machine that fires for slow-but-finite inputs. It is only a
 		// suspect: the input was just re-run alone under this check's own
 		// CPU-time watchdog and returned, so it is counted, not reported.
-		hung := false
-		for _, x := range reps { // what this check's own oracles say about the input
-			if x.Kind == "hang" {
-				hung = true
-				r.confirmHang(x, origin)
-				continue
-			}
-			c.Fail(x.Key, fmt.Sprintf("%s mode=%s input_len=%d: %s: %s", x.Target, x.Mode, x.InputLen, x.Kind, x.Msg), replayCase(x.Target, x.Corpus, origin))
-		}
-		if !hung {
-			c.Count("engine_wallclock_timer_kills_not_confirmed", 1)
-			return true
-		}
-		return false
+		c.Count("engine_wallclock_timer_kills_not_confirmed", 1)
+		return true
 	}
+	hadReps := len(reps) > 0
+	reps = nil
 	switch {
+	case key == "" && hadReps:
+		// the oracle reports above are the verdict on this input
 	case key != "":
-		c.Fail(key, fmt.Sprintf("%s: worker process died: %s | %s | %s", target, msg, firstLines(stackAfterPanic(stack), 8), note), replayCase(target, corpus, origin))
+		r.fail(key, fmt.Sprintf("%s: worker process died: %s | %s | %s", target, msg, firstLines(stackAfterPanic(stack), 8), note), replayCase(target, corpus, origin))
 	case len(reps) > 0:
 		for _, x := range reps {
 			if x.Kind == "hang" {
 				r.confirmHang(x, origin)
 				continue
 			}
-			c.Fail(x.Key, fmt.Sprintf("%s mode=%s: %s: %s", x.Target, x.Mode, x.Kind, x.Msg), replayCase(x.Target, x.Corpus, origin))
+			r.fail(x.Key, fmt.Sprintf("%s mode=%s: %s: %s", x.Target, x.Mode, x.Kind, x.Msg), replayCase(x.Target, x.Corpus, origin))
 		}
 	case res.code == 0:
 		c.Inconclusive("%s: the engine saved crasher %s (%s) but it passes when replayed alone", target, filepath.Base(crasherRel), tail(strings.TrimSpace(fo.res.out), 300))
 	default:
-		c.Fail(fuzzkey.Key(target, "fail", "", "unclassified"), fmt.Sprintf("%s: crasher fails on replay with unclassified output: %s", target, tail(res.out, 600)), replayCase(target, corpus, origin))
+		r.fail(fuzzkey.Key(target, "fail", "", "unclassified"), fmt.Sprintf("%s: crasher fails on replay with unclassified output: %s", target, tail(res.out, 600)), replayCase(target, corpus, origin))
 	}
 	return false
 }
@@ -508,7 +555,7 @@ func (r *runner) seedRun(target string, tr *targetResult) {
 	}
 	if res.code != 0 && len(hangs) == 0 {
 		if key, msg, stack := classifyCrash(target, res.out); key != "" {
-			c.Fail(key, fmt.Sprintf("%s: seed corpus run died: %s | %s", target, msg, firstLines(stackAfterPanic(stack), 8)), map[string]any{"target": target, "origin": "seed corpus", "output": tail(res.out, 3000)})
+			r.fail(key, fmt.Sprintf("%s: seed corpus run died: %s | %s", target, msg, firstLines(stackAfterPanic(stack), 8)), map[string]any{"target": target, "origin": "seed corpus", "output": tail(res.out, 3000)})
 		} else {
 			c.Broken("%s: seed corpus run failed: %s", target, tail(res.out, 1500))
 		}
@@ -600,8 +647,11 @@ func (r *runner) fuzzRun(target string, budget, workers int, tr *targetResult) {
 			return
 		}
 		hangs := r.failReports(rep, "fuzzing")
+		resumable := true // after a hang: only when every suspect ended as a listed finding
 		for _, h := range hangs {
-			r.confirmHang(h, "fuzzing")
+			if k := r.confirmHang(h, "fuzzing"); k == "" || !r.known[k] {
+				resumable = false
+			}
 		}
 		if !fo.failed {
 			break
@@ -615,7 +665,18 @@ func (r *runner) fuzzRun(target string, budget, workers int, tr *targetResult) {
 			}
 		}
 		if len(hangs) > 0 {
-			return // watchdog verdicts were produced by confirmHang; the budget is not resumed after a hang
+			// watchdog verdicts were produced by confirmHang
+			if !resumable {
+				return
+			}
+			_ = os.MkdirAll(aside, 0o755)
+			for _, nf := range newFiles {
+				_ = os.Rename(filepath.Join(corpusDir, nf), filepath.Join(aside, fmt.Sprintf("%d-%s", attempt, nf)))
+			}
+			if tr.Restarts++; tr.Restarts > maxRestarts {
+				break
+			}
+			continue
 		}
 		if len(newFiles) == 0 {
 			key, msg, stack := classifyCrash(target, res.out+"\n"+workerCrashDump(rep))
@@ -631,7 +692,7 @@ func (r *runner) fuzzRun(target string, budget, workers int, tr *targetResult) {
 				continue
 			}
 			if key != "" {
-				c.Fail(key, fmt.Sprintf("%s: fuzz process died: %s | %s", target, msg, firstLines(stackAfterPanic(stack), 8)), map[string]any{"target": target, "output": tail(res.out, 3000)})
+				r.fail(key, fmt.Sprintf("%s: fuzz process died: %s | %s", target, msg, firstLines(stackAfterPanic(stack), 8)), map[string]any{"target": target, "output": tail(res.out, 3000)})
 			} else {
 				c.Broken("%s: fuzz run failed without crasher: %s", target, tail(res.out, 1500))
 			}
@@ -646,7 +707,10 @@ func (r *runner) fuzzRun(target string, budget, workers int, tr *targetResult) {
 			}
 			_ = os.Rename(filepath.Join(corpusDir, nf), filepath.Join(aside, fmt.Sprintf("%d-%s", attempt, nf)))
 		}
-		if tr.Restarts > maxRestarts || tr.BenignRestarts > 10*maxRestarts {
+		r.mu.Lock()
+		unlisted := r.unknown[target]
+		r.mu.Unlock()
+		if unlisted || tr.Restarts > maxRestarts || tr.BenignRestarts > 10*maxRestarts {
 			break
 		}
 	}
@@ -660,7 +724,7 @@ func replayFilePath() string {
 }
 
 func run(c *vf.Ctx) {
-	r := &runner{c: c, harness: filepath.Join(vf.VerifRoot, "harness"), repo: "/repo", failed: map[string]bool{}}
+	r := &runner{c: c, harness: filepath.Join(vf.VerifRoot, "harness"), repo: "/repo", failed: map[string]bool{}, known: loadKnownKeys(), unknown: map[string]bool{}}
 	if v := os.Getenv("VERIF_REPO"); v != "" {
 		r.repo = v
 	}
@@ -831,17 +895,19 @@ func (r *runner) replay(path string) {
 		c.Broken("replay file %s carries no fuzz input", path)
 		return
 	}
+	// a hang key is reproduced by the watchdog at its normal budget; any other key gets the 10x
+	// budget so that the watchdog does not pre-empt e.g. a stack overflow that needs a minute
 	budget := []string{}
-	if strings.Contains(rf.Key, ":hang") {
+	if !strings.Contains(rf.Key, ":hang") {
 		budget = append(budget, "VERIF_FUZZ_HANG_S=200")
 	}
 	res, reps := r.runSingle(rf.Case.Target, string(corpus), "replay", 45*time.Minute, budget...)
 	c.Eval("replay", true)
 	for _, x := range reps {
-		c.Fail(x.Key, fmt.Sprintf("%s mode=%s: %s: %s", x.Target, x.Mode, x.Kind, x.Msg), replayCase(x.Target, x.Corpus, "replay"))
+		r.fail(x.Key, fmt.Sprintf("%s mode=%s: %s: %s", x.Target, x.Mode, x.Kind, x.Msg), replayCase(x.Target, x.Corpus, "replay"))
 	}
 	if key, msg, stack := classifyCrash(rf.Case.Target, res.out); key != "" {
-		c.Fail(key, fmt.Sprintf("%s: process died: %s | %s", rf.Case.Target, msg, firstLines(stackAfterPanic(stack), 8)), replayCase(rf.Case.Target, string(corpus), "replay"))
+		r.fail(key, fmt.Sprintf("%s: process died: %s | %s", rf.Case.Target, msg, firstLines(stackAfterPanic(stack), 8)), replayCase(rf.Case.Target, string(corpus), "replay"))
 	}
 	fmt.Printf("replay of %s: exit=%d reports=%d\n", rf.Key, res.code, len(reps))
 }
